@@ -120,6 +120,7 @@ def accOfShape (shape chain : String) (k0 : Nat) : Option Acc :=
   | "map-arcself", "id" => some (.map .cell .id)
   | "map1-other-thread", _ => some (.map (.ptr .cell) .fst)
   | "keepalive", _ => some (.map (.ptr .cell) .snd)
+  | "keepalive-outlived", _ => some (.map (.ptr .cell) .snd)
   | _, _ => none
 
 def field (l : String) (key : String) : String :=
